@@ -87,9 +87,18 @@ class _Objs:
         self.nxt += 1
         return k
 
-    def finish(self, catalog, variant):
+    def finish(self, catalog, variant, broken_root=None):
+        """broken_root: the page tree cannot be walked, so create_pages falls back to scanning the cross-reference
+        table for /Type /Page objects: "missing" (/Pages names an object the file does not have), "untyped" (the
+        root has no /Type), "other-type" (the root is not of /Type /Pages)"""
         cat = {"Type": Name("Catalog"), "Pages": Ref(2)}
         cat.update(catalog)
+        if broken_root == "missing":
+            cat["Pages"] = Ref(self.nxt + 40)
+        elif broken_root == "untyped":
+            del self.objs[2]["Type"]
+        elif broken_root == "other-type":
+            self.objs[2]["Type"] = Name("Catalog")
         self.objs[1] = cat
         if variant in (0, 2):
             rev = Revision(dict(sorted(self.objs.items())), root=Ref(1))
@@ -139,7 +148,7 @@ def label_dict(style, prefix, st, variant, o=None):
     return d
 
 
-def labels_doc(vals, npages, variant, mask=-1):
+def labels_doc(vals, npages, variant, mask=-1, broken_root=None):
     """vals: [{start, style, prefix, st}] sorted.  variant 0: one root with /Nums; variant 1: the pairs spread over
     indirect leaf nodes (with /Limits) below a root with /Kids, the label dictionaries indirect; variant 2: as 1 and
     every entry (/S /P /St, the keys in /Nums, the /Nums, /Kids and /Limits arrays and their elements) indirect."""
@@ -161,7 +170,7 @@ def labels_doc(vals, npages, variant, mask=-1):
             lim = o.ind([o.ind(chunk[0][0], "lim"), o.ind(chunk[-1][0], "lim")], "arr")
             kids.append(o.new({"Limits": lim, "Nums": nums(chunk)}))
         tree = {"Kids": o.ind(kids, "arr")}
-    return o.finish({"PageLabels": tree if variant == 0 else o.new(tree)}, variant), {"pages": o.page_ids, "deep": o.deep}
+    return o.finish({"PageLabels": tree if variant == 0 else o.new(tree)}, variant, broken_root), {"pages": o.page_ids, "deep": o.deep}
 
 
 def _num_node(o, t, value_of, variant, root=False):
